@@ -22,7 +22,9 @@ def expm_csr(matrix: CSR) -> CSR:
     if isdiag_csr(matrix):
         matrix_sci = matrix.as_scipy()
         data = np.ones(matrix.shape[0], dtype=np.complex128)
-        data[matrix_sci.indices] += np.expm1(matrix_sci.data)
+        # There can be explicitly stored zeros, also off the diagonal: several
+        # entries can share an index.
+        np.add.at(data, matrix_sci.indices, np.expm1(matrix_sci.data))
         return CSR(
             (
                 data,
